@@ -101,6 +101,7 @@ type Conn struct {
 	exports    []*expent
 	exportID   idgen
 	imports    map[importID]*impent
+	importGen  uint64 // generation of the newest importClient
 	embargoes  []*embargo
 	embargoID  idgen
 }
